@@ -51,6 +51,10 @@ def build_rust():
             return False, r2.stdout[-4000:]
     return True, ""
 
+def modules_of(prop):
+    import props
+    return [f"SyModel.Props.{prop}"] + props.PROPS[prop].get("extra_modules", [])
+
 def build_lean(prop):
     """Regenerate constants from the Rust source, rebuild the property module and the driver."""
     import extract_consts
@@ -58,37 +62,43 @@ def build_lean(prop):
         ok, msg = extract_consts.regenerate(REPO, os.path.join(LEAN, "SyModel", "Generated", "Consts.lean"))
         if not ok:
             return False, "extract_consts: " + msg, None
-        r = sh(["lake", "build", f"SyModel.Props.{prop}", "sydriver"], cwd=LEAN)
+        r = sh(["lake", "build"] + modules_of(prop) + ["sydriver"], cwd=LEAN)
         if r.returncode != 0:
             m = re.findall(r"error: ([^\n]*)", r.stdout)
             return False, r.stdout[-6000:], (m[0] if m else None)
     return True, "", None
 
 def theorem_names(prop):
-    src = open(os.path.join(LEAN, "SyModel", "Props", prop + ".lean")).read()
-    src_nc = re.sub(r"/-.*?-/", "", src, flags=re.S)
-    src_nc = re.sub(r"--[^\n]*", "", src_nc)
-    return re.findall(r"^theorem\s+([A-Za-z0-9_'.]+)", src_nc, flags=re.M), src_nc
+    """fully qualified names of every theorem in the property's Props module(s)"""
+    names = []
+    for mod in modules_of(prop):
+        src = open(os.path.join(LEAN, *mod.split(".")) + ".lean").read()
+        src_nc = re.sub(r"/-.*?-/", "", src, flags=re.S)
+        src_nc = re.sub(r"--[^\n]*", "", src_nc)
+        ns = re.search(r"^namespace\s+([A-Za-z0-9_.]+)", src_nc, flags=re.M)
+        prefix = (ns.group(1) + ".") if ns else ""
+        names += [prefix + n for n in re.findall(r"^theorem\s+([A-Za-z0-9_'.]+)", src_nc, flags=re.M)]
+    return names, None
 
 def audit(prop):
-    """#print axioms on every theorem of the property file; scan sources for forbidden constructs."""
+    """#print axioms on every theorem of the property file(s); scan sources for forbidden constructs."""
     names, _ = theorem_names(prop)
     os.makedirs(os.path.join(BUILD, "audit"), exist_ok=True)
     f = os.path.join(BUILD, "audit", prop + ".lean")
     with open(f, "w") as h:
-        h.write(f"import SyModel.Props.{prop}\nopen SyModel.Props.{prop}\n")
+        for mod in modules_of(prop): h.write(f"import {mod}\n")
         for n in names:
-            h.write(f"#print axioms SyModel.Props.{prop}.{n}\n")
+            h.write(f"#print axioms {n}\n")
     r = sh(["lake", "env", "lean", f], cwd=LEAN)
     out = r.stdout
     res = {}
     # "'name' depends on axioms: [a, b]" or "'name' does not depend on any axioms"
     for m in re.finditer(r"'([^']+)' (does not depend on any axioms|depends on axioms: \[([^\]]*)\])", out, flags=re.S):
         full = m.group(1); axs = [] if m.group(3) is None else [a.strip() for a in m.group(3).replace("\n", " ").split(",") if a.strip()]
-        res[full.split(".")[-1]] = axs
+        res[full] = axs
     bad = {n: a for n, a in res.items() if not set(a) <= ALLOWED_AXIOMS}
-    missing = [n for n in names if n.split(".")[-1] not in res]
-    # forbidden constructs in every .lean file the property depends on (whole model tree: cheap)
+    missing = [n for n in names if n not in res]
+    # forbidden constructs anywhere in the Lean tree (cheap)
     hits = []
     for root, _, files in os.walk(os.path.join(LEAN)):
         if ".lake" in root: continue
@@ -97,9 +107,11 @@ def audit(prop):
             txt = open(os.path.join(root, fn)).read()
             txt = re.sub(r"/-.*?-/", "", txt, flags=re.S)
             txt = re.sub(r"--[^\n]*", "", txt)
+            rel = os.path.relpath(os.path.join(root, fn), LEAN)
             for tok in FORBIDDEN:
-                if tok in txt: hits.append(f"{os.path.relpath(os.path.join(root, fn), LEAN)}: {tok.strip()}")
-            if re.search(r"^\s*axiom\s", txt, flags=re.M): hits.append(f"{fn}: axiom")
+                if tok in txt: hits.append(f"{rel}: {tok.strip()}")
+            if re.search(r"^\s*axiom\s", txt, flags=re.M): hits.append(f"{rel}: axiom")
+            if not rel.startswith("Driver") and re.search(r"\bpartial def\b", txt): hits.append(f"{rel}: partial def")
     return names, res, bad, missing, hits, out if r.returncode != 0 else ""
 
 def load_known():
@@ -147,10 +159,10 @@ def main():
         for n, a in bad.items(): broken.append(("T", n, f"depends on non-allowed axioms {a}"))
         for n in missing: broken.append(("T", n, "no #print axioms output: " + auditerr[-500:]))
         for h in hits: broken.append(("T", "forbidden-construct", h))
-    discharged = len([n for n in names if n.split(".")[-1] in axres and n.split(".")[-1] not in bad]) if okl else 0
+    discharged = len([n for n in names if n in axres and n not in bad]) if okl else 0
     leanchecker = None
     if okl and tier == "thorough":
-        r = sh(["lake", "env", "leanchecker", f"SyModel.Props.{prop}"], cwd=LEAN)
+        r = sh(["lake", "env", "leanchecker"] + modules_of(prop), cwd=LEAN)
         leanchecker = (r.returncode == 0)
         if r.returncode != 0: broken.append(("T", "leanchecker", r.stdout[-800:]))
     # 4/5. streams (K and O)
@@ -217,7 +229,7 @@ def main():
             "obligations": max(1, len(names)), "discharged": discharged,
             "checker_cmd": f"cd {LEAN} && lake build SyModel.Props.{prop} && lake env lean <#print axioms on {len(names)} theorems>" + (" && lake env leanchecker" if tier == "thorough" else ""),
             "trusted_base": cfg.get("trusted_base", []) + ["Lean 4.33.0 kernel", "axioms ⊆ {propext, Classical.choice, Quot.sound} (audited this run)"],
-            "theorems": {n: axres.get(n.split(".")[-1]) for n in names},
+            "theorems": {n: axres.get(n) for n in names},
             "evaluations": evaluations, "distinct_nontrivial": distinct,
             "rule": " | ".join(f"{r['stream']}: {r.get('rule', '')}" for r in reports),
             "samples": samples, "histogram": hist,
